@@ -383,7 +383,7 @@ def load_known():
 
 
 class Ctx:
-    def __init__(self, pid, tier, seed, level):
+    def __init__(self, pid, tier, seed, level, fresh=True):
         self.pid, self.tier, self.seed, self.level = pid, tier, seed, level
         self.t0 = time.time()
         self.stages = []
@@ -404,6 +404,8 @@ class Ctx:
         self.workdir = os.path.join(OUT, pid)
         os.makedirs(self.workdir, exist_ok=True)
         self.replaydir = os.path.join(OUT, "replays", pid)
+        if fresh:
+            shutil.rmtree(self.replaydir, ignore_errors=True)
         self.open_known = [k for k in load_known() if k.get("property") == pid and k.get("status") == "open"]
 
     # -- stage bookkeeping
